@@ -457,6 +457,10 @@ fn tx_part(run: &Run, shard: usize, n: usize, n_shapes: u64, deadline: f64) {
 				);
 			}
 		}
+		// fee totals at and above 2^40 (a single kernel's fee field holds 40 bits, the sum over kernels does not)
+		if s % 3 == 0 {
+			fee_boundary_cases(run, &w, &mut p, &mut key, &gen.header, s);
+		}
 		// block level (every 2nd shape): same transactions inside a block with a coinbase
 		if s % 2 == 0 {
 			// a parent high enough that every lock height is reached and NRD kernels are allowed (header v5)
@@ -483,6 +487,83 @@ fn tx_part(run: &Run, shard: usize, n: usize, n_shapes: u64, deadline: f64) {
 						json!({"shape_index": s, "shape": shape_s, "operator": name}),
 					);
 				}
+			}
+		}
+	}
+}
+
+/// Multi-kernel transactions whose fees add up to 2^40 nanogrin or more. `paying`: every kernel declares
+/// what its part really pays (valid, must pass); `not_paying`: the kernels declare 2^39 and 2^39 + f (each
+/// signed for its declared fee) but the parts pay 0 and f — 2^40 nanogrin appear from nowhere, must be refused,
+/// at transaction level and inside a block whose coinbase claims only what was really paid.
+fn fee_boundary_cases(run: &Run, w: &World, p: &mut Prng, key: &mut u32, gen_header: &grin_core::core::BlockHeader, s: u64) {
+	let half = 1u64 << 39;
+	let f = 1_000_000 + p.below(1_000_000);
+	let n_kern = 2 + p.usize_below(2);
+	let shift = p.below(3);
+	let mut mk = |declared: u64, paid: u64, p: &mut Prng| -> Transaction {
+		let kin = w.key(*key);
+		let kout = w.key(*key + 1);
+		*key += 2;
+		let value = (1u64 << 41) + p.below(1 << 30);
+		let c = w.coin(value, &kin, false);
+		w.tx(p, &[c], &[(value - paid, kout)], KernelFeatures::Plain { fee: FeeFields::new(shift, declared).unwrap() }).0
+	};
+	// declared fees: [2^39, 2^39 + f, (small ...)]
+	let mut declared = vec![half, half + f];
+	while declared.len() < n_kern {
+		declared.push(1_000_000 + p.below(1000));
+	}
+	let paying: Vec<Transaction> = declared.iter().map(|d| mk(*d, *d, p)).collect();
+	let not_paying: Vec<Transaction> = declared.iter().enumerate().map(|(i, d)| mk(*d, if i < 2 { *d - half } else { *d }, p)).collect();
+	let total: u64 = declared.iter().sum();
+	let mut prev = gen_header.clone();
+	prev.height = 5000;
+	for (name, txs, must_pass, claimed) in [
+		("fees_sum_above_2^40_really_paid", &paying, true, total),
+		("fees_sum_above_2^40_declared_but_not_paid", &not_paying, false, total - (1u64 << 40)),
+	] {
+		let agg = match transaction::aggregate(txs) {
+			Ok(a) => a,
+			Err(e) => {
+				if must_pass {
+					run.violation(&format!("C01;tx;valid_rejected;{};aggregate", name), &format!("aggregate failed: {:?}", e), json!({"shape_index": s, "case": name}));
+				}
+				continue;
+			}
+		};
+		let r = agg.validate(Weighting::AsTransaction);
+		run.eval(&format!("tx;fee_boundary;{};k{};shift{}", name, n_kern, shift), true);
+		run.count(&format!("tx_fee_boundary.{}", name), 1);
+		if must_pass != r.is_ok() {
+			run.violation(
+				&format!("C01;tx;{};{}", if must_pass { "valid_rejected" } else { "corruption_accepted" }, name),
+				&format!(
+					"{}-kernel transaction declaring fees {:?} (sum {}, fee() reports {}) which {}: validate = {:?}",
+					n_kern,
+					declared,
+					total,
+					agg.fee(),
+					if must_pass { "really pays them" } else { "pays 2^40 nanogrin less than declared" },
+					r
+				),
+				json!({"shape_index": s, "case": name, "declared": declared}),
+			);
+		}
+		// the same inside a block whose coinbase claims `claimed` fees
+		let kcb = w.key(*key);
+		*key += 1;
+		let (o, kn) = w.coinbase(&kcb, claimed);
+		if let Ok(b) = Block::from_reward(&prev, &[agg], o, kn, grin_core::pow::Difficulty::from_num(1)) {
+			let rb = b.validate(&prev.total_kernel_offset);
+			run.eval(&format!("block;fee_boundary;{};k{}", name, n_kern), true);
+			run.count(&format!("block_fee_boundary.{}", name), 1);
+			if must_pass != rb.is_ok() {
+				run.violation(
+					&format!("C01;block;{};{}", if must_pass { "valid_rejected" } else { "corruption_accepted" }, name),
+					&format!("block with a transaction declaring fees {:?} (sum {}) and a coinbase claiming {} in fees: Block::validate = {:?}", declared, total, claimed, rb),
+					json!({"shape_index": s, "case": name, "declared": declared, "coinbase_claims": claimed}),
+				);
 			}
 		}
 	}
@@ -842,6 +923,10 @@ fn main() {
 	}
 	run.require("chain_blocks_accepted", run.counter("chain_blocks_accepted"), run.tier.pick(100, 1000));
 	run.require("chain_full_state_equations_checked", run.counter("chain_full_state_equations_checked"), run.tier.pick(100, 1000));
+	for k in ["fees_sum_above_2^40_really_paid", "fees_sum_above_2^40_declared_but_not_paid"] {
+		run.require(&format!("tx_fee_boundary.{}", k), run.counter(&format!("tx_fee_boundary.{}", k)), run.tier.pick(20, 200));
+		run.require(&format!("block_fee_boundary.{}", k), run.counter(&format!("block_fee_boundary.{}", k)), run.tier.pick(20, 200));
+	}
 	for k in ["unsigned_kernel_hiding_value", "range_proofs_swapped_between_outputs", "inflated_output"] {
 		for par in ["even", "odd"] {
 			let c = format!("state_forged.{}.kernels_{}", k, par);
